@@ -90,7 +90,8 @@ def run(tier, seed):
 
         # ---- synthetic tables through temporary header files
         fmts = ['plain', 'PS%d - Faults', 'lvl %c%c', 'v=%02X %x', '%d%%', '%5d|%-4d|', 'say \"hi\" %d', '%d %d %d %d %d', '%q', 'trail %',
-                '%.2X %.4X', '%u', '%ld', '  padded  ', '%c', '%s']
+                '%.2X %.4X', '%u', '%ld', '  padded  ', '%c', '%s',
+                '100%%', '%%', 'a%%b%%c', '%% %d', 'load %d%% of %d%%']
         for t in range(60 if thorough else 12):
             ents = []
             for _ in range(rng.randrange(1, 12)):
@@ -101,6 +102,23 @@ def run(tier, seed):
                     pat = pat[:rng.choice([7, 9]) if rng.random() < 0.5 else 8] + ('A' if rng.random() < 0.5 else '')
                 ptxt = ', '.join(str(rng.choice([0, 1, 2, 3, 4, 5, 9, 12, 34])) for _ in range(rng.randrange(0, 5)))
                 ents.append((pat, rng.choice(fmts), ptxt))
+            family = []
+            if t % 2 == 1:
+                # overlap family around one reported error PTE v (flag 0x00040000 = hex digit 3): patterns that match only the
+                # value as stored, only the value with the flag cleared, or both (wildcard over the flag digit), in every order;
+                # "first match in header-file order" must be decided entry by entry, not as-stored first and cleared second
+                v = (rng.randrange(2 ** 32) & 0x0FFFFFFF) | 0xE0040000
+                cleared = v & ~0x00040000
+                def pat_of(x, wild_flag):
+                    h = '%08X' % x
+                    return ''.join(('*' if wild_flag else c) if i == 3 else c if (i == 0 or rng.random() < 0.55) else '*' for i, c in enumerate(h))
+                fam = [(pat_of(cleared, False), 'CLEARED %d', '1'), (pat_of(v, False), 'STORED %d', '2'), (pat_of(v, True), 'BOTH %d', '3'),
+                       (pat_of(cleared, False), 'CLEARED2', '')]
+                rng.shuffle(fam)
+                fam = fam[:rng.randrange(2, 5)]
+                pos = rng.randrange(len(ents) + 1)
+                ents[pos:pos] = fam
+                family = [v, cleared, v ^ 0x00000001, cleared ^ 0x00100000, v | 0x00080000]
             path = os.path.join(tmp, 'synth%d.h' % t)
             iod.write_pte_header(path, ents)
             abstract = [(p, f.strip(), [int(ch) for ch in ptxt if ch.isdigit()]) for (p, f, ptxt) in ents]
@@ -112,6 +130,8 @@ def run(tier, seed):
                     v = fill(p.ljust(8, '0')[:8], rng) if rng.random() < 0.8 else rng.randrange(2 ** 32)
                     if rng.random() < 0.4:
                         v = (v | 0xE0040000) & 0xEFFFFFFF | 0xE0000000
+                    if family and rng.random() < 0.5:
+                        v = rng.choice(family)
                     es.append((rng.randrange(65536), rng.randrange(65536), v & 0xFFFFFFFF))
                 reqs.append('ilogspec %d %s %s' % (tid, tlist(es, lambda e: '%d %d %d' % e), tb(b'')))
                 meta.append(('spec', path, None, ('synth%d' % t, es, b'')))
